@@ -96,7 +96,8 @@ Expected(st, c, Own) ==
          \* target: relative spellings are taken relative to the directory of the link
          \* (a spelling with ~, $ or a scheme is only settled for absolute targets: otherwise not judged)
          IF p = Root THEN R(st, RErrAny)
-         ELSE IF c.b # <<>> /\ ~PL!IsAbs(c.b) THEN
+         ELSE IF c.b = <<>> THEN [st |-> st, res |-> RAny, alt |-> {}, partial |-> TRUE, paired |-> FALSE]     \* empty target: Path::Empty or "the link's own directory" - not settled
+         ELSE IF ~PL!IsAbs(c.b) THEN
               (IF \E i \in 1..Len(c.b) : c.b[i] \in {"~", "$", ":"} THEN [st |-> st, res |-> RAny, alt |-> {}, partial |-> TRUE, paired |-> FALSE]
                ELSE Op_symlink(st, Own, p, JoinClean(Parent(p), PL!Segs(c.b))))
          ELSE LET rb == ResolveB(st, c) IN
@@ -115,6 +116,10 @@ Expected(st, c, Own) ==
          [] op = "write_lines" -> IF LinesData(c) = <<>> THEN R(st, ROk(Unit)) ELSE Op_write_all(st, Own, p, LinesData(c) \o <<NL>>)
          [] op = "append_lines" -> IF LinesData(c) = <<>> THEN R(st, ROk(Unit)) ELSE Op_append_all(st, Own, p, LinesData(c) \o <<NL>>)
          [] op = "append_line" -> IF c.ls = <<>> \/ c.ls[1] = <<>> THEN R(st, ROk(Unit)) ELSE Op_append_all(st, Own, p, c.ls[1] \o <<NL>>)
+         [] op = "h_open" -> Op_h_open(st, Own, p, HasFlag(c, "a"))
+         [] op = "h_write" -> Op_h_write(st, p)
+         [] op = "h_flush" -> Op_h_sync(st, p, c.d, HasFlag(c, "c"))
+         [] op = "h_drop" -> LET o == Op_h_sync(st, p, c.d, HasFlag(c, "c")) IN [o EXCEPT !.res = ROk(Unit)]     \* drop has no result
          [] op = "remove" -> Op_remove(st, p)
          [] op = "remove_all" -> Op_remove_all(st, p)
          [] op = "set_cwd" -> LET o == Op_set_cwd(st, p) IN IF o.res.o = "ok" THEN [o EXCEPT !.res = ROk(PV(p))] ELSE o
